@@ -473,6 +473,15 @@ class ConnectionPool(Entity):
 
         while self._total_connections < self._min_connections:
             connection = yield from self._create_connection()
+
+            if self._waiters:
+                # An acquirer queued while this connection was being set up
+                # (its slot was already counted): hand it over directly.
+                _waiter_id, _request_time, callback = self._waiters.popleft()
+                self._activate_connection(connection)
+                callback(connection)
+                continue
+
             self._idle_connections.append(connection)
 
             # Schedule idle timeout check
@@ -547,6 +556,11 @@ class ConnectionPool(Entity):
 
     def _create_connection(self) -> Generator[float, None, Connection]:
         """Create a new connection to the target."""
+        # Reserve the pool slot before the set-up latency: callers test
+        # total < max before yielding, so a connection that is being
+        # established must already count or concurrent acquirers over-create.
+        self._total_connections += 1
+
         # Simulate connection establishment time
         latency = self._connection_latency.get_latency(self.now)
         yield latency.to_seconds()
@@ -558,7 +572,6 @@ class ConnectionPool(Entity):
             last_used_at=self.now,
             is_active=False,
         )
-        self._total_connections += 1
         self._connections_created += 1
 
         logger.debug(
